@@ -22,11 +22,12 @@ MANIFEST = {
             'maintenance, validators, _lookup) the first statement is an unconditional acl.enforce of the '
             'documented rule and only harmless calls precede later conditional enforces, hence (all databases, '
             'all policies, all requests) a denied applicable rule gives 403 with the database unchanged; '
-            'all_projects is guarded by an admin-only <family>:list:all_projects rule (FALSE for code_sources '
-            'and dynamic_actions: kept as _full_fails + _partial, confirmed through the WSGI app); scope=public '
+            'every method accepting all_projects is guarded by an admin-only <family>:list:all_projects rule; '
+            'scope=public '
             'requires <family>:publicize; execution PUT only to PAUSED/RUNNING/final, never description with '
             'state, task PUT only from ERROR to RUNNING/SKIPPED, action PUT only to the five supported states, '
-            'no delete of an unfinished execution without force (all states/field combinations). The model is '
+            'no delete of an unfinished execution without force, the force text being parsed as a boolean '
+            '(all states/field combinations). The model is '
             'tied to the code by running every generated endpoint x rule denied/allowed x resource '
             'present/absent and the exhaustive guard cross-products through the real pecan application on '
             'in-memory sqlite with a table hash before/after.',
@@ -802,24 +803,25 @@ def stream_guards(ctx, run, thorough):
         finish()
 
     # ---------------- DELETE /v2/executions/{id}
-    # wsme converts a `bool` query parameter with python's bool(text): every non-empty text is True
-    forces = (None, '', 'true', 'false') + (('True', 'False', '0', '1', 'no') if thorough else ())
+    # `force` is a types.boolean: the text is parsed (bool_from_string, strict), not bool(text)
+    forces = (None, '', 'true', 'false', '0', 'abc') + (
+        ('True', 'False', '1', 'no', 'off', ' TRUE ', 'yes', 'n', 'FALSE', 'tru', '2', 't', 'f') if thorough else ())
     cases = [(cur, force) for cur in WF_STATES + ('<absent>',) for force in forces]
-    mouts = drv.batch('rest.execDelete', [{'exists': cur != '<absent>', 'cur': cur if cur != '<absent>' else '',
-                                           'force': bool(force)} for cur, force in cases])
+    mouts = drv.batch('rest.execDeleteReq', [{'exists': cur != '<absent>', 'cur': cur if cur != '<absent>' else '',
+                                              'force': force} for cur, force in cases])
     for (cur, force), mo in zip(cases, mouts):
         id_ = fx['wfex_A_' + cur] if cur != '<absent>' else rd.ABSENT
         status, rb, calls = R.request('DELETE', '/v2/executions/' + id_, 'memberA',
                                       params={'force': force} if force is not None else None)
         gone = _row(R, 'wf', id_) is None
-        impl = {204: 'deleted', 404: 'notFound', 403: 'notAllowed'}.get(status, 'http%d' % status)
+        impl = {204: 'deleted', 404: 'notFound', 403: 'notAllowed', 400: 'badRequest'}.get(status, 'http%d' % status)
         if (impl == 'deleted') != (gone and cur != '<absent>'):
             impl += ':row-%s' % ('gone' if gone else 'kept')
         ctx.evaluated('guards', ['execDelete', cur, force], nontrivial=cur not in FINAL)
         ctx.count('guards', 'execDelete:' + impl)
         if impl != mo:
             ctx.disagree('guards', {'op': 'DELETE /v2/executions', 'current': cur, 'force': force}, mo, impl)
-        if cur != '<absent>' and gone and (force or '').lower() not in ('true', '1', 'yes', 'on', 't', 'y') \
+        if cur != '<absent>' and gone and (force or '').strip().lower() not in ('true', '1', 'yes', 'on', 't', 'y') \
                 and cur not in FINAL:
             ctx.violation('unfinished execution (%s) deleted without force (force=%r)' % (cur, force),
                           {'kind': 'guard', 'op': 'execDelete', 'current': cur, 'force': force, 'status': status},
@@ -967,6 +969,41 @@ def stream_guards(ctx, run, thorough):
         finish()
 
 
+# ----------------------------------------------------------------------------- corpus (regressions, run first)
+def run_corpus(ctx, run):
+    """corpus/C16/*.json: witnesses of repaired defects; the monitors must stay silent on them."""
+    import glob
+    import os
+    from harness import rest_driver as rd
+    from vlib import core
+    for path in sorted(glob.glob(os.path.join(core.VERIF, 'corpus', 'C16', '*.json'))):
+        with open(path) as f:
+            w = json.load(f)
+        ctx.count('corpus', w['kind'])
+        if w['kind'] == 'all-projects':
+            ep = [e for e in run.eps if [e['cls'], e['method'], e['path']] == w['endpoint']]
+            if not ep:
+                ctx.disagree('corpus', w, 'endpoint of a regression witness', 'no longer generated')
+                continue
+            all_projects_cases(ctx, run, ep[0], documented_rule(ep[0]))
+        elif w['kind'] == 'exec-delete-force':
+            R = run.R
+            id_ = R.fx['wfex_A_' + w['current']]
+            status, rb, calls = R.request('DELETE', '/v2/executions/' + id_, 'memberA', params={'force': w['force']})
+            gone = _row(R, 'wf', id_) is None
+            ctx.evaluated('corpus', [w['kind'], w['current'], w['force']], nontrivial=True)
+            if gone:
+                ctx.violation('unfinished execution (%s) deleted without force (force=%r)' % (w['current'], w['force']),
+                              {'kind': 'guard', 'op': 'execDelete', 'current': w['current'], 'force': w['force'],
+                               'status': status},
+                              {'kind': 'exec-delete-unfinished-without-force',
+                               'force': 'non-empty text other than true/1/yes'})
+            if R.db_hash() != R.baseline:
+                R.restore()
+        else:
+            ctx.disagree('corpus', w, 'known witness kind', 'unknown')
+
+
 # ----------------------------------------------------------------------------- entry points
 def correspond(ctx):
     try:
@@ -975,6 +1012,7 @@ def correspond(ctx):
         ctx.broken_tie('correspondence', 'rest', 'cannot set up the REST harness / read the endpoint table: %s: %s' % (
             type(e).__name__, e))
         return
+    run_corpus(ctx, run)
     stream_rest(ctx, run)
     stream_policy(ctx, run, ctx.n(150, 4000))
     if ctx.thorough():
